@@ -587,7 +587,8 @@ class Interp:
             elif issubclass(cls, tuple):
                 obj = tuple.__new__(cls, *args)
             else:
-                obj = object.__new__(cls)
+                from .api import _bare_instance
+                obj = _bare_instance(cls)
         self.note_new_object(obj)
         if isinstance(obj, cls):
             init = _static_lookup(cls, '__init__')
